@@ -4,7 +4,7 @@
    ownership model of stored arrays; sklearn.clone, copy.deepcopy and pickle
    are third-party and are exercised on the implementation, not modelled. *)
 From Coq Require Import List Bool Arith String.
-From ART Require Import Params Params_proofs.
+From ART Require Import Params Params_proofs Params_nested.
 Import ListNotations.
 
 Theorem C19_set_get_noop :
@@ -35,6 +35,27 @@ Theorem C19_owned_state_unaffected_by_mutation :
   forall (A : Type) (W : list (cell A)) (X X' : list A) (d : A),
     forallb (owned A) W = true -> map (resolve A X d) W = map (resolve A X' d) W.
 Proof. exact @ownership_frame. Qed.
+(* estimators with sub-estimators (BaseART.set_params / BARTMAP.set_params): own parameters, module replacement and
+   nested values in one call *)
+Theorem C19_nested_unknown_name_changes_nothing :
+  forall (V : Type) pvalid_own pvalid_sub (e : est V) kw,
+    kw <> [] -> forallb (known V e) kw = false -> set_params_n V pvalid_own pvalid_sub e kw = (e, false).
+Proof. exact unknown_name_changes_nothing. Qed.
+Theorem C19_nested_invalid_own_value_changes_nothing :
+  forall (V : Type) pvalid_own pvalid_sub (e : est V) kw,
+    kw <> [] -> forallb (known V e) kw = true -> pvalid_own (own_after V e kw) = false ->
+    set_params_n V pvalid_own pvalid_sub e kw = (e, false).
+Proof. exact invalid_own_changes_nothing. Qed.
+Theorem C19_replaced_module_receives_the_nested_value :
+  forall (V : Type) pvalid_own pvalid_sub (e : est V) m pnew k v (swap : bool),
+    has (params V) (e_subs V e) m = true ->
+    pvalid_own (e_own V e) = true ->
+    set_params V (pvalid_sub m) pnew [(k, v)] = (pset V pnew k v, true) ->
+    let kw := if swap then [ANest V m k v; ARepl V m pnew] else [ARepl V m pnew; ANest V m k v] in
+    set_params_n V pvalid_own pvalid_sub e kw
+    = ({| e_own := e_own V e; e_subs := pset (params V) (e_subs V e) m (pset V pnew k v) |}, true).
+Proof. exact replaced_module_receives_the_nested_value. Qed.
+Print Assumptions C19_replaced_module_receives_the_nested_value.
 Print Assumptions C19_set_get_noop.
 Print Assumptions C19_owned_state_unaffected_by_mutation.
 Print Assumptions C19_rejected_call_changes_nothing.
